@@ -25,7 +25,8 @@ def dec_of_pair(p):
 
 # ----------------------------------------------------------------------------- fiat values (exact rationals)
 def in_cost_with_fee(r):
-    """lot's fiat cost including acquisition fee; exchange-supplied values win"""
+    """lot's fiat cost including acquisition fee; exchange-supplied values win.  The fiat fields are integers in 1e-11 units,
+    or exact rationals 'n/d' in the same unit (effective rows of the end-to-end stream, hist.split_case): Fraction() reads both"""
     if r.get("fiat_in_with_fee") is not None:
         return Fraction(r["fiat_in_with_fee"]) * U11
     no_fee = Fraction(r["fiat_in_no_fee"]) * U11 if r.get("fiat_in_no_fee") is not None else Fraction(r["crypto_in"] * r["spot"]) * U11 * U11
@@ -155,8 +156,11 @@ def yearly(case, fractions, to_day, from_day):
         evs[e["row"]] = e
     lines, order = {}, []
     for f in fractions:
-        e = evs[f["ev"]]
-        if to_day is not None and hist.local_day(e["ts"]) > to_day:
+        e = evs.get(f["ev"])
+        if e is None:
+            # the implementation's fraction names a row that is no taxable transaction of the input: a line no summary can have
+            e = {"ts": [0, 0], "type": f"row {f['ev']} (no taxable transaction of the input)"}
+        elif to_day is not None and hist.local_day(e["ts"]) > to_day:
             continue
         key = (hist.local_year(e["ts"]), e["type"], f["long"])
         if key not in lines:
@@ -177,7 +181,7 @@ def yearly(case, fractions, to_day, from_day):
 def labels(case, fractions, to_day):
     """k/n labels among the fractions dated up to to_day: {(ev, lot): (ev_idx, ev_n, lot_idx, lot_n)}"""
     evs = {e["row"]: e for e in hist.taxable_oracle(case)}
-    kept = [f for f in fractions if to_day is None or hist.local_day(evs[f["ev"]]["ts"]) <= to_day]
+    kept = [f for f in fractions if to_day is None or f["ev"] not in evs or hist.local_day(evs[f["ev"]]["ts"]) <= to_day]
     ev_cnt, lot_cnt = {}, {}
     out = {}
     for f in kept:
